@@ -1,1 +1,1098 @@
-fn main() {}
+//! C03 — no safe public call panics, whatever its arguments. Deterministic
+//! simulation with fault enumeration at every seam a call touches: the text
+//! sink, the allocator, the clock, in two build configurations, with process
+//! isolation so that an abort is observed rather than fatal.
+//!
+//! coordinator: c03 --tier quick|thorough [--calls N]
+//!              c03 --replay FILE
+//! worker:      c03 --worker --build NAME --seed S --calls N --index K --of W [--trace]
+//!              c03 --exec-one FILE
+
+mod alloc;
+mod calls;
+mod sink;
+
+use calls::{Call, FuncEntry};
+use serde_json::{json, Value};
+use simcore::rng::{tag, Rng};
+use simcore::{EXIT_HARNESS, EXIT_OK, EXIT_VIOLATION};
+use sink::FaultySink;
+use std::cell::{Cell, RefCell};
+use std::collections::{BTreeMap, BTreeSet};
+use std::io::Write as _;
+
+#[global_allocator]
+static GLOBAL: alloc::FailingAlloc = alloc::FailingAlloc;
+
+const PROPERTY: &str = "C03";
+
+// ---------------------------------------------------------------------------
+// clock seam (a small fixed set of readings; C18 owns the real clock search)
+// ---------------------------------------------------------------------------
+
+#[derive(Clone, Copy, Debug, PartialEq, Eq)]
+enum ClockMode {
+    /// 2024-02-29 12:00:00 UTC, frozen
+    Normal,
+    /// one of the extreme readings
+    Extreme(usize),
+    /// starts at 1999-12-31 23:59:59.999999999 and jumps a day and a second per reading
+    Ticking,
+}
+
+const EXTREME_CLOCKS: [(i64, u32, i32, &str); 10] = [
+    (-62_198_755_200, 0, 0, "year -1"),
+    (-62_167_219_200, 0, 0, "year 0"),
+    (-62_135_596_800, 0, 0, "0001-01-01 00:00:00"),
+    (253_402_300_799, 999_999_999, 0, "9999-12-31 23:59:59.999999999"),
+    (253_402_300_800, 0, 0, "10000-01-01"),
+    (8_200_000_000_000, 0, 0, "year ~261800"),
+    (915_148_799, 1_500_000_000, 0, "leap-second representation"),
+    (946_684_799, 999_999_999, 0, "last nanosecond of a century"),
+    (-8_200_000_000_000, 0, 0, "year ~-257800"),
+    (951_782_400, 0, 50_400, "2000-02-29 +14:00"),
+];
+
+thread_local! {
+    static CLOCK_READS: Cell<u64> = const { Cell::new(0) };
+    static CLOCK_MODE: Cell<(u8, usize)> = const { Cell::new((0, 0)) };
+    static LAST_PANIC: RefCell<String> = const { RefCell::new(String::new()) };
+}
+
+fn install_clock() {
+    sqldatetime::verif_hooks::set_clock(Some(Box::new(|| {
+        let n = CLOCK_READS.with(|c| {
+            let n = c.get();
+            c.set(n + 1);
+            n
+        });
+        let (kind, idx) = CLOCK_MODE.with(|m| m.get());
+        let (secs, nanos, off) = match kind {
+            0 => (1_709_208_000, 0, 0),
+            1 => {
+                let e = EXTREME_CLOCKS[idx % EXTREME_CLOCKS.len()];
+                (e.0, e.1, e.2)
+            }
+            _ => (946_684_799 + n as i64 * 86_401, 999_999_999, 0),
+        };
+        chrono::DateTime::from_timestamp(secs, nanos)
+            .expect("clock table")
+            .with_timezone(&chrono::FixedOffset::east_opt(off).expect("offset"))
+    })));
+}
+
+fn set_clock_mode(m: ClockMode) {
+    CLOCK_READS.with(|c| c.set(0));
+    CLOCK_MODE.with(|c| {
+        c.set(match m {
+            ClockMode::Normal => (0, 0),
+            ClockMode::Extreme(i) => (1, i),
+            ClockMode::Ticking => (2, 0),
+        })
+    });
+}
+
+// ---------------------------------------------------------------------------
+// passes
+// ---------------------------------------------------------------------------
+
+#[derive(Clone, Copy, Debug, PartialEq, Eq)]
+struct Pass {
+    sink_fail_at: Option<usize>,
+    sink_capacity: Option<usize>,
+    /// refuse allocation request #n (one-shot or persistent from there on)
+    alloc_refuse: Option<(u64, bool)>,
+    /// when the sink failure fires, refuse the next allocation too (persistent?)
+    then_refuse_alloc: Option<bool>,
+    clock: ClockMode,
+}
+
+impl Pass {
+    const CONTROL: Pass = Pass {
+        sink_fail_at: None,
+        sink_capacity: None,
+        alloc_refuse: None,
+        then_refuse_alloc: None,
+        clock: ClockMode::Normal,
+    };
+    fn kind(&self) -> &'static str {
+        if self.sink_fail_at.is_some() && self.then_refuse_alloc.is_some() {
+            "sink_write_fail_then_alloc_refused_in_error_path"
+        } else if self.sink_fail_at.is_some() {
+            "sink_write_fail"
+        } else if self.sink_capacity.is_some() {
+            "sink_capacity"
+        } else if let Some((_, p)) = self.alloc_refuse {
+            if p {
+                "alloc_refused_persistent"
+            } else {
+                "alloc_refused_once"
+            }
+        } else {
+            match self.clock {
+                ClockMode::Normal => "control",
+                ClockMode::Extreme(_) => "clock_extreme",
+                ClockMode::Ticking => "clock_tick",
+            }
+        }
+    }
+    fn position(&self) -> u64 {
+        self.sink_fail_at
+            .map(|x| x as u64)
+            .or(self.sink_capacity.map(|x| x as u64))
+            .or(self.alloc_refuse.map(|x| x.0))
+            .unwrap_or(match self.clock {
+                ClockMode::Extreme(i) => i as u64,
+                _ => 0,
+            })
+    }
+    fn to_json(&self) -> Value {
+        json!({
+            "kind": self.kind(),
+            "sink_fail_at_write": self.sink_fail_at,
+            "sink_capacity_bytes": self.sink_capacity,
+            "alloc_refuse_request": self.alloc_refuse.map(|x| x.0),
+            "alloc_refuse_persistent": self.alloc_refuse.map(|x| x.1),
+            "then_refuse_next_alloc_persistent": self.then_refuse_alloc,
+            "clock": match self.clock {
+                ClockMode::Normal => json!("normal"),
+                ClockMode::Extreme(i) => json!({"extreme": i, "what": EXTREME_CLOCKS[i % EXTREME_CLOCKS.len()].3}),
+                ClockMode::Ticking => json!("ticking"),
+            },
+        })
+    }
+    fn from_json(v: &Value) -> Pass {
+        let u = |k: &str| v[k].as_u64();
+        Pass {
+            sink_fail_at: u("sink_fail_at_write").map(|x| x as usize),
+            sink_capacity: u("sink_capacity_bytes").map(|x| x as usize),
+            alloc_refuse: u("alloc_refuse_request").map(|n| (n, v["alloc_refuse_persistent"].as_bool().unwrap_or(false))),
+            then_refuse_alloc: v["then_refuse_next_alloc_persistent"].as_bool(),
+            clock: if v["clock"] == json!("ticking") {
+                ClockMode::Ticking
+            } else if let Some(i) = v["clock"]["extreme"].as_u64() {
+                ClockMode::Extreme(i as usize)
+            } else {
+                ClockMode::Normal
+            },
+        }
+    }
+}
+
+#[derive(Clone, Debug)]
+struct PassResult {
+    outcome: &'static str,
+    panicked: bool,
+    panic_msg: String,
+    writes: usize,
+    bytes: usize,
+    allocs: u64,
+    refused: u64,
+    clock_reads: u64,
+    sink_fired: bool,
+}
+
+fn run_pass(call: &Call, funcs: &[FuncEntry], vals: Option<&calls::Vals>, pass: &Pass) -> PassResult {
+    set_clock_mode(pass.clock);
+    let mut sink = FaultySink::new(pass.sink_fail_at, pass.sink_capacity, pass.then_refuse_alloc);
+    let r = std::panic::catch_unwind(std::panic::AssertUnwindSafe(|| {
+        alloc::arm(pass.alloc_refuse.map(|x| x.0), pass.alloc_refuse.map(|x| x.1).unwrap_or(false));
+        let o = calls::execute(call, funcs, vals, &mut sink);
+        let (a, refused) = alloc::disarm();
+        (o, a, refused)
+    }));
+    let (a2, r2) = alloc::disarm();
+    let clock_reads = CLOCK_READS.with(|c| c.get());
+    match r {
+        Ok((o, a, refused)) => PassResult {
+            outcome: o,
+            panicked: false,
+            panic_msg: String::new(),
+            writes: sink.writes,
+            bytes: sink.bytes,
+            allocs: a,
+            refused,
+            clock_reads,
+            sink_fired: sink.fired,
+        },
+        Err(_) => PassResult {
+            outcome: "panic",
+            panicked: true,
+            panic_msg: LAST_PANIC.with(|p| p.borrow().clone()),
+            writes: sink.writes,
+            bytes: sink.bytes,
+            allocs: a2,
+            refused: r2,
+            clock_reads,
+            sink_fired: sink.fired,
+        },
+    }
+}
+
+/// All fault passes for a call whose control pass showed `w` sink writes
+/// (`bytes` bytes), `a` allocation requests and `c` clock readings.
+fn enumerate_passes(w: usize, bytes: usize, a: u64, c: u64, rng: &mut Rng) -> Vec<Pass> {
+    let mut v = Vec::new();
+    let mut positions: Vec<usize> = (0..w.min(64)).collect();
+    if w > 64 {
+        for _ in 0..4 {
+            positions.push(64 + rng.usize_below(w - 64));
+        }
+        positions.push(w - 1);
+    }
+    for &i in &positions {
+        v.push(Pass { sink_fail_at: Some(i), ..Pass::CONTROL });
+    }
+    if w > 0 {
+        let mut caps = vec![0usize, 1];
+        if bytes > 0 {
+            caps.push(bytes - 1);
+        }
+        caps.dedup();
+        for cap in caps {
+            v.push(Pass { sink_capacity: Some(cap), ..Pass::CONTROL });
+        }
+    }
+    for j in 0..a.min(32) {
+        v.push(Pass { alloc_refuse: Some((j, false)), ..Pass::CONTROL });
+        v.push(Pass { alloc_refuse: Some((j, true)), ..Pass::CONTROL });
+    }
+    for &i in &positions {
+        v.push(Pass { sink_fail_at: Some(i), then_refuse_alloc: Some(false), ..Pass::CONTROL });
+        v.push(Pass { sink_fail_at: Some(i), then_refuse_alloc: Some(true), ..Pass::CONTROL });
+    }
+    if c > 0 {
+        for i in 0..EXTREME_CLOCKS.len() {
+            v.push(Pass { clock: ClockMode::Extreme(i), ..Pass::CONTROL });
+        }
+        v.push(Pass { clock: ClockMode::Ticking, ..Pass::CONTROL });
+        // a clock-reading call that also allocates: refuse under an extreme clock
+        if a > 0 {
+            v.push(Pass { clock: ClockMode::Extreme(4), alloc_refuse: Some((0, true)), ..Pass::CONTROL });
+        }
+    }
+    v
+}
+
+// ---------------------------------------------------------------------------
+// worker
+// ---------------------------------------------------------------------------
+
+const FAULT_KINDS: [&str; 7] = [
+    "sink_write_fail",
+    "sink_capacity",
+    "alloc_refused_once",
+    "alloc_refused_persistent",
+    "sink_write_fail_then_alloc_refused_in_error_path",
+    "clock_extreme",
+    "clock_tick",
+];
+
+#[derive(Default)]
+struct WStats {
+    calls: u64,
+    passes: u64,
+    seamless_calls: u64,
+    calls_with_sink: u64,
+    calls_with_alloc: u64,
+    calls_with_clock: u64,
+    configured: BTreeMap<&'static str, u64>,
+    fired: BTreeMap<&'static str, u64>,
+    outcomes: BTreeMap<&'static str, u64>,
+    by_func: BTreeMap<String, u64>,
+    probes: BTreeMap<&'static str, u64>,
+    distinct: BTreeSet<u64>,
+    samples: Vec<Value>,
+    violations: Vec<Value>,
+    hash: u64,
+}
+
+fn probe_call(call: &Call, st: &mut WStats) {
+    let mut p = |name: &'static str| *st.probes.entry(name).or_default() += 1;
+    let pic = match call {
+        Call::TryNew { pic } | Call::Parse { pic, .. } | Call::Format { pic, .. } => Some(pic.as_str()),
+        _ => None,
+    };
+    if let Some(pic) = pic {
+        let mut run = 0usize;
+        let mut max_run = 0usize;
+        for b in pic.bytes() {
+            if b == b' ' {
+                run += 1;
+                max_run = max_run.max(run);
+            } else {
+                run = 0;
+            }
+        }
+        if max_run >= 256 {
+            p("picture_blank_run_ge_256");
+        }
+        if max_run == 255 {
+            p("picture_blank_run_eq_255");
+        }
+        if !pic.is_ascii() {
+            p("picture_non_ascii");
+        }
+    }
+    if let Call::Parse { text, pic, .. } = call {
+        if !text.is_ascii() {
+            p("text_non_ascii");
+        }
+        if text.len() >= 255 {
+            p("text_len_ge_255");
+        }
+        if text.is_empty() {
+            p("text_empty");
+        }
+        let up = pic.to_ascii_uppercase();
+        if (up == "D" || up.ends_with(" D") || up.starts_with("D ") || up.contains("-D") )
+            && text.trim_start().bytes().next().map(|b| b < b'0').unwrap_or(false)
+        {
+            p("weekday_number_field_meets_byte_below_0");
+        }
+    }
+    if let Call::Format { ty, raw, pic, .. } = call {
+        let up = pic.to_ascii_uppercase();
+        if up.contains("FF9") {
+            p("format_ff9");
+        }
+        if *ty == calls::Ty::IntervalDT && raw.unsigned_abs() >= 32 * 86_400_000_000 && up.contains("DD") {
+            p("format_interval_day_ge_32");
+        }
+    }
+}
+
+fn worker(build: &str, seed: u64, n_calls: u64, index: u64, of: u64, trace: bool, only: Option<u64>) -> i32 {
+    let funcs = calls::funcs();
+    install_clock();
+    let mut st = WStats::default();
+    let mut idx = index;
+    let stderr = std::io::stderr();
+    while idx < n_calls {
+        if let Some(o) = only {
+            if idx != o {
+                idx += of;
+                continue;
+            }
+        }
+        let mut rng = Rng::for_run(seed, tag("C03-call"), idx);
+        let call = calls::gen_call(&mut rng, &funcs);
+        let vals = match &call {
+            Call::Func { args, .. } => args.vals(),
+            _ => None,
+        };
+        st.calls += 1;
+        *st.by_func.entry(call.func_id()).or_default() += 1;
+        probe_call(&call, &mut st);
+        let mut passes = vec![Pass::CONTROL];
+        let mut pi = 0;
+        let mut call_hash = simcore::Fnv::new();
+        while pi < passes.len() {
+            let pass = passes[pi];
+            if trace {
+                let _ = writeln!(stderr.lock(), "BEGIN {} {}", idx, pi);
+            }
+            let r = run_pass(&call, &funcs, vals.as_ref(), &pass);
+            st.passes += 1;
+            call_hash.write(r.outcome.as_bytes());
+            call_hash.write_u64(r.writes as u64);
+            call_hash.write_u64(r.allocs);
+            *st.outcomes.entry(r.outcome).or_default() += 1;
+            if pi == 0 {
+                if r.writes == 0 && r.allocs == 0 && r.clock_reads == 0 {
+                    st.seamless_calls += 1;
+                }
+                if r.writes > 0 {
+                    st.calls_with_sink += 1;
+                }
+                if r.allocs > 0 {
+                    st.calls_with_alloc += 1;
+                }
+                if r.clock_reads > 0 {
+                    st.calls_with_clock += 1;
+                }
+                if !r.panicked {
+                    passes.extend(enumerate_passes(r.writes, r.bytes, r.allocs, r.clock_reads, &mut rng));
+                }
+                if st.samples.len() < 3 && (r.writes > 0 || r.allocs > 0) && index == 0 {
+                    st.samples.push(json!({"call": call.describe(), "control_pass": {"outcome": r.outcome, "sink_writes": r.writes, "sink_bytes": r.bytes, "allocations": r.allocs, "clock_readings": r.clock_reads}, "fault_passes_enumerated": passes.len() - 1}));
+                }
+            } else {
+                let kind = pass.kind();
+                *st.configured.entry(kind).or_default() += 1;
+                let fired = r.sink_fired || r.refused > 0 || matches!(pass.clock, ClockMode::Extreme(_) | ClockMode::Ticking) && r.clock_reads > 0;
+                if fired {
+                    *st.fired.entry(kind).or_default() += 1;
+                    let mut h = simcore::Fnv::new();
+                    h.write(call.func_id().as_bytes());
+                    h.write(build.as_bytes());
+                    h.write(kind.as_bytes());
+                    h.write_u64(pass.position().min(80));
+                    h.write(r.outcome.as_bytes());
+                    st.distinct.insert(h.finish());
+                }
+            }
+            if r.panicked {
+                if st.violations.len() < 5 {
+                    st.violations.push(json!({
+                        "index": idx, "pass_no": pi, "build": build, "class": "panic",
+                        "panic": r.panic_msg, "call": call.to_json(), "pass": pass.to_json(), "describe": call.describe(),
+                    }));
+                }
+                break;
+            }
+            pi += 1;
+        }
+        st.hash = st.hash.wrapping_add(simcore::pool::batch_mix(idx, call_hash.finish()));
+        idx += of;
+    }
+    let out = json!({
+        "calls": st.calls, "passes": st.passes, "seamless_calls": st.seamless_calls,
+        "calls_with_sink": st.calls_with_sink, "calls_with_alloc": st.calls_with_alloc, "calls_with_clock": st.calls_with_clock,
+        "configured": st.configured, "fired": st.fired, "outcomes": st.outcomes, "by_func": st.by_func, "probes": st.probes,
+        "distinct": st.distinct.iter().collect::<Vec<_>>(), "samples": st.samples, "violations": st.violations,
+        "hash": format!("{:016x}", st.hash),
+    });
+    println!("STATS {}", out);
+    EXIT_OK
+}
+
+/// Executes one (call, pass) from a replay file in this process.
+/// exit 0: returned normally; exit 1: panicked; killed by a signal: crash.
+fn exec_one(path: &str) -> i32 {
+    let v = match simcore::evidence::read_json(std::path::Path::new(path)) {
+        Ok(v) => v,
+        Err(e) => {
+            eprintln!("harness error: {e}");
+            return EXIT_HARNESS;
+        }
+    };
+    let call = match Call::from_json(&v["call"]) {
+        Ok(c) => c,
+        Err(e) => {
+            eprintln!("harness error: bad call: {e}");
+            return EXIT_HARNESS;
+        }
+    };
+    let pass = Pass::from_json(&v["pass"]);
+    let funcs = calls::funcs();
+    install_clock();
+    let vals = match &call {
+        Call::Func { args, .. } => args.vals(),
+        _ => None,
+    };
+    let r = run_pass(&call, &funcs, vals.as_ref(), &pass);
+    println!(
+        "outcome={} writes={} allocs={} refused={} clock_reads={}",
+        r.outcome, r.writes, r.allocs, r.refused, r.clock_reads
+    );
+    if r.panicked {
+        println!("PANIC {}", r.panic_msg.replace('\n', " | "));
+        EXIT_VIOLATION
+    } else {
+        EXIT_OK
+    }
+}
+
+// ---------------------------------------------------------------------------
+// coordinator
+// ---------------------------------------------------------------------------
+
+fn build_exe(build: &str) -> std::path::PathBuf {
+    simcore::verif_root().join("sim").join("target").join(build).join("c03")
+}
+
+struct WorkerOut {
+    stats: Option<Value>,
+    crashed: Option<String>,
+}
+
+fn spawn_worker(build: &str, seed: u64, calls: u64, index: u64, of: u64, trace: bool, only: Option<u64>) -> std::io::Result<std::process::Child> {
+    let mut c = std::process::Command::new(build_exe(build));
+    c.arg("--worker")
+        .arg("--build")
+        .arg(build)
+        .arg("--seed")
+        .arg(seed.to_string())
+        .arg("--calls")
+        .arg(calls.to_string())
+        .arg("--index")
+        .arg(index.to_string())
+        .arg("--of")
+        .arg(of.to_string());
+    if trace {
+        c.arg("--trace");
+    }
+    if let Some(o) = only {
+        c.arg("--only").arg(o.to_string());
+    }
+    c.stdout(std::process::Stdio::piped()).stderr(std::process::Stdio::piped()).spawn()
+}
+
+fn collect(child: std::process::Child) -> WorkerOut {
+    match child.wait_with_output() {
+        Ok(o) => {
+            let text = String::from_utf8_lossy(&o.stdout);
+            let stats = text
+                .lines()
+                .find_map(|l| l.strip_prefix("STATS "))
+                .and_then(|s| serde_json::from_str::<Value>(s).ok());
+            if o.status.success() && stats.is_some() {
+                WorkerOut { stats, crashed: None }
+            } else {
+                let err = String::from_utf8_lossy(&o.stderr);
+                let tail: String = err.lines().rev().take(6).collect::<Vec<_>>().into_iter().rev().collect::<Vec<_>>().join(" | ");
+                WorkerOut { stats: None, crashed: Some(format!("status {:?}; stderr tail: {}", o.status, tail)) }
+            }
+        }
+        Err(e) => WorkerOut { stats: None, crashed: Some(format!("wait failed: {e}")) },
+    }
+}
+
+/// Runs (call, pass) in a fresh process of `build`. Returns "ok", "panic: ..", or "crash: ..".
+fn exec_in_fresh_process(build: &str, call: &Call, pass: &Pass, scratch: &std::path::Path) -> String {
+    let body = json!({"call": call.to_json(), "pass": pass.to_json(), "build": build});
+    if simcore::evidence::write_json_atomic(scratch, &body).is_err() {
+        return "harness: cannot write scratch".into();
+    }
+    match std::process::Command::new(build_exe(build)).arg("--exec-one").arg(scratch).output() {
+        Ok(o) => {
+            let out = String::from_utf8_lossy(&o.stdout);
+            match o.status.code() {
+                Some(0) => "ok".into(),
+                Some(1) => format!("panic: {}", out.lines().find_map(|l| l.strip_prefix("PANIC ")).unwrap_or("")),
+                Some(c) => format!("harness: exit code {c}"),
+                None => {
+                    let err = String::from_utf8_lossy(&o.stderr);
+                    format!("crash: {:?} {}", o.status, err.lines().last().unwrap_or(""))
+                }
+            }
+        }
+        Err(e) => format!("harness: {e}"),
+    }
+}
+
+fn class_of(result: &str) -> &'static str {
+    if result.starts_with("panic") {
+        "panic"
+    } else if result.starts_with("crash") {
+        "crash"
+    } else if result.starts_with("harness") {
+        "harness"
+    } else {
+        "ok"
+    }
+}
+
+fn shrink_str(s: &str, still_fails: &mut dyn FnMut(&str) -> bool) -> String {
+    let mut cur: Vec<char> = s.chars().collect();
+    let mut chunk = (cur.len() / 2).max(1);
+    let mut budget = 120;
+    while chunk >= 1 && budget > 0 {
+        let mut i = 0;
+        let mut removed_any = false;
+        while i < cur.len() && budget > 0 {
+            let end = (i + chunk).min(cur.len());
+            let mut cand = cur.clone();
+            cand.drain(i..end);
+            budget -= 1;
+            let cs: String = cand.iter().collect();
+            if still_fails(&cs) {
+                cur = cand;
+                removed_any = true;
+            } else {
+                i += chunk;
+            }
+        }
+        if chunk == 1 && !removed_any {
+            break;
+        }
+        if !removed_any || chunk > 1 {
+            chunk = if chunk == 1 { 1 } else { chunk / 2 };
+        }
+        if chunk == 1 && !removed_any {
+            break;
+        }
+    }
+    cur.into_iter().collect()
+}
+
+fn minimise(build: &str, call: Call, pass: Pass, class: &str, scratch: &std::path::Path) -> (Call, Pass) {
+    let fails = |c: &Call, p: &Pass| class_of(&exec_in_fresh_process(build, c, p, scratch)) == class;
+    let mut call = call;
+    let mut pass = pass;
+    // simpler pass first
+    for cand in [
+        Pass::CONTROL,
+        Pass { then_refuse_alloc: None, ..pass },
+        Pass { alloc_refuse: pass.alloc_refuse.map(|x| (x.0, false)), ..pass },
+        Pass { sink_fail_at: pass.sink_fail_at.map(|_| 0), ..pass },
+    ] {
+        if cand != pass && fails(&call, &cand) {
+            pass = cand;
+        }
+    }
+    match call.clone() {
+        Call::TryNew { pic } => {
+            let p = shrink_str(&pic, &mut |s| fails(&Call::TryNew { pic: s.to_string() }, &pass));
+            call = Call::TryNew { pic: p };
+        }
+        Call::Parse { ty, text, pic, via_formatter } => {
+            let mut via = via_formatter;
+            if via && fails(&Call::Parse { ty, text: text.clone(), pic: pic.clone(), via_formatter: false }, &pass) {
+                via = false;
+            }
+            let p = shrink_str(&pic, &mut |s| fails(&Call::Parse { ty, text: text.clone(), pic: s.to_string(), via_formatter: via }, &pass));
+            let t = shrink_str(&text, &mut |s| fails(&Call::Parse { ty, text: s.to_string(), pic: p.clone(), via_formatter: via }, &pass));
+            call = Call::Parse { ty, text: t, pic: p, via_formatter: via };
+        }
+        Call::Format { ty, raw, pic, display } => {
+            let p = shrink_str(&pic, &mut |s| fails(&Call::Format { ty, raw, pic: s.to_string(), display }, &pass));
+            let mut r = raw;
+            for cand in [0i64, 1, ty.lo(), ty.hi()] {
+                if cand != r && fails(&Call::Format { ty, raw: cand, pic: p.clone(), display }, &pass) {
+                    r = cand;
+                    break;
+                }
+            }
+            call = Call::Format { ty, raw: r, pic: p, display };
+        }
+        _ => {}
+    }
+    (call, pass)
+}
+
+fn signature(call: &Call, result: &str) -> String {
+    // class + where the panic was raised (file:line) + message; for a crash
+    // (no panic location) the function that was called.
+    let class = class_of(result);
+    match result.split("panicked at ").nth(1) {
+        Some(rest) => {
+            let mut parts = rest.splitn(2, " | ");
+            let loc = parts.next().unwrap_or("").trim().trim_end_matches(':');
+            // drop the column
+            let loc: String = loc.rsplitn(2, ':').last().unwrap_or(loc).to_string();
+            let msg: String = parts.next().unwrap_or("").trim().chars().take(50).collect();
+            format!("{}:{}:{}", class, loc, msg.replace(' ', "_"))
+        }
+        None => format!("{}:{}", class, call.func_id()),
+    }
+}
+
+fn merge_num(into: &mut BTreeMap<String, u64>, v: &Value) {
+    if let Some(m) = v.as_object() {
+        for (k, n) in m {
+            *into.entry(k.clone()).or_default() += n.as_u64().unwrap_or(0);
+        }
+    }
+}
+
+fn coordinator(tier: &str, calls_override: Option<u64>, out: &std::path::Path) -> i32 {
+    let thorough = tier == "thorough";
+    let seed = simcore::seed_from_env();
+    println!("C03 simulation: VERIF_SEED={seed} tier={tier}");
+    let t0 = simcore::real_monotonic_s();
+    let n_calls: u64 = calls_override.unwrap_or(if thorough { 6_000_000 } else { 200_000 });
+    let workers = simcore::pool::default_workers() as u64;
+    let builds = ["relchk", "release"];
+    let known = simcore::known::load();
+    let scratch = simcore::verif_root().join("sim").join("target").join("c03-scratch.json");
+
+    let mut totals: BTreeMap<&str, u64> = BTreeMap::new();
+    let mut configured: BTreeMap<String, u64> = BTreeMap::new();
+    let mut fired: BTreeMap<String, u64> = BTreeMap::new();
+    let mut outcomes: BTreeMap<String, u64> = BTreeMap::new();
+    let mut by_func: BTreeMap<String, u64> = BTreeMap::new();
+    let mut probes: BTreeMap<String, u64> = BTreeMap::new();
+    let mut distinct: BTreeSet<u64> = BTreeSet::new();
+    let mut samples: Vec<Value> = Vec::new();
+    let mut hashes: BTreeMap<&str, u64> = BTreeMap::new();
+    // (build, index, pass_no, call, pass, result text)
+    let mut found: Vec<(String, u64, u64, Call, Pass, String)> = Vec::new();
+    let mut harness_errors: Vec<String> = Vec::new();
+
+    for build in builds {
+        if !build_exe(build).exists() {
+            eprintln!("harness error: {} is not built", build_exe(build).display());
+            return EXIT_HARNESS;
+        }
+        let mut children = Vec::new();
+        for k in 0..workers {
+            match spawn_worker(build, seed, n_calls, k, workers, false, None) {
+                Ok(c) => children.push((k, c)),
+                Err(e) => {
+                    eprintln!("harness error: cannot spawn worker: {e}");
+                    return EXIT_HARNESS;
+                }
+            }
+        }
+        for (k, child) in children {
+            let o = collect(child);
+            if let Some(s) = o.stats {
+                for key in ["calls", "passes", "seamless_calls", "calls_with_sink", "calls_with_alloc", "calls_with_clock"] {
+                    *totals.entry(key).or_default() += s[key].as_u64().unwrap_or(0);
+                }
+                merge_num(&mut configured, &s["configured"]);
+                merge_num(&mut fired, &s["fired"]);
+                merge_num(&mut outcomes, &s["outcomes"]);
+                merge_num(&mut by_func, &s["by_func"]);
+                merge_num(&mut probes, &s["probes"]);
+                if let Some(a) = s["distinct"].as_array() {
+                    for d in a {
+                        if let Some(x) = d.as_u64() {
+                            distinct.insert(x);
+                        }
+                    }
+                }
+                if let Some(a) = s["samples"].as_array() {
+                    for x in a {
+                        if samples.len() < 4 {
+                            samples.push(x.clone());
+                        }
+                    }
+                }
+                if let Some(h) = s["hash"].as_str().and_then(|h| u64::from_str_radix(h, 16).ok()) {
+                    let e = hashes.entry(build).or_default();
+                    *e = e.wrapping_add(h);
+                }
+                if let Some(a) = s["violations"].as_array() {
+                    for v in a {
+                        if let Ok(call) = Call::from_json(&v["call"]) {
+                            found.push((
+                                build.to_string(),
+                                v["index"].as_u64().unwrap_or(0),
+                                v["pass_no"].as_u64().unwrap_or(0),
+                                call,
+                                Pass::from_json(&v["pass"]),
+                                format!("panic: {}", v["panic"].as_str().unwrap_or("")),
+                            ));
+                        }
+                    }
+                }
+            } else {
+                // the worker died: re-run its slice with tracing to find the pass
+                println!("worker {k} of build {build} died ({}); re-running its slice with tracing", o.crashed.clone().unwrap_or_default());
+                let traced = spawn_worker(build, seed, n_calls, k, workers, true, None).map(collect_trace);
+                match traced {
+                    Ok(Some((idx, pno))) => {
+                        // regenerate the call and the pass list deterministically
+                        let funcs = calls::funcs();
+                        let mut rng = Rng::for_run(seed, tag("C03-call"), idx);
+                        let call = calls::gen_call(&mut rng, &funcs);
+                        match locate_pass(build, seed, n_calls, idx, pno, &scratch) {
+                            Some((pass, result)) => found.push((build.to_string(), idx, pno, call, pass, result)),
+                            None => harness_errors.push(format!("worker crash at call {idx} pass {pno} ({build}) did not reproduce in a fresh process")),
+                        }
+                    }
+                    _ => harness_errors.push(format!("worker {k} ({build}) died but the traced re-run did not: {}", o.crashed.unwrap_or_default())),
+                }
+            }
+        }
+        println!(
+            "build {}: calls={} passes so far={} ({:.1}s)",
+            build,
+            n_calls,
+            totals.get("passes").copied().unwrap_or(0),
+            simcore::real_monotonic_s() - t0
+        );
+    }
+
+    // ---- violations: confirm in a fresh process, minimise, known-findings filter ----
+    found.sort_by(|a, b| (a.1, a.2, a.0.clone()).cmp(&(b.1, b.2, b.0.clone())));
+    let mut exit = EXIT_OK;
+    let mut lines = Vec::new();
+    let mut n_viol = 0;
+    let mut seen_sigs: BTreeSet<String> = BTreeSet::new();
+    for (build, idx, pno, call, pass, _result) in found.iter().take(12) {
+        let first = exec_in_fresh_process(build, call, pass, &scratch);
+        let class = class_of(&first);
+        if class == "ok" || class == "harness" {
+            harness_errors.push(format!("violation at call {idx} pass {pno} ({build}) did not reproduce in a fresh process: {first}"));
+            continue;
+        }
+        let (mc, mp) = minimise(build, call.clone(), *pass, class, &scratch);
+        let final_result = exec_in_fresh_process(build, &mc, &mp, &scratch);
+        let (mc, mp, final_result) = if class_of(&final_result) == class { (mc, mp, final_result) } else { (call.clone(), *pass, first) };
+        let sig = signature(&mc, &final_result);
+        if !seen_sigs.insert(sig.clone()) {
+            continue;
+        }
+        println!("violation class={} build={} sig={} : {} under pass {} -> {}", class, build, sig, mc.describe(), mp.to_json(), final_result);
+        if let Some(desc) = known.lookup(PROPERTY, &sig) {
+            println!("KNOWN-FINDING: property={} {} ({})", PROPERTY, sig, desc);
+            continue;
+        }
+        n_viol += 1;
+        let path = simcore::verif_root().join("replays").join(format!("C03-{}-{}-{}.json", seed, idx, build));
+        let body = json!({
+            "property": PROPERTY, "class": class, "signature": sig, "build": build, "seed": seed, "call_index": idx,
+            "result": final_result, "describe": mc.describe(), "call": mc.to_json(), "pass": mp.to_json(),
+        });
+        if let Err(e) = simcore::evidence::write_json_atomic(&path, &body) {
+            eprintln!("harness error: cannot write replay: {e}");
+            return EXIT_HARNESS;
+        }
+        lines.push(format!("VIOLATION property={} replay={}", PROPERTY, path.display()));
+        exit = EXIT_VIOLATION;
+    }
+    if exit == EXIT_OK && !harness_errors.is_empty() {
+        for e in &harness_errors {
+            eprintln!("harness error: {e}");
+        }
+        exit = EXIT_HARNESS;
+    }
+    let _ = std::fs::remove_file(&scratch);
+
+    // ---- evidence ----
+    let wall = simcore::real_monotonic_s() - t0;
+    let mut fk = serde_json::Map::new();
+    for k in FAULT_KINDS {
+        fk.insert(k.to_string(), json!({"configured": configured.get(k).copied().unwrap_or(0), "fired": fired.get(k).copied().unwrap_or(0)}));
+    }
+    if samples.is_empty() {
+        samples.push(json!({"note": "no call with a seam sampled"}));
+    }
+    let passes = totals.get("passes").copied().unwrap_or(0);
+    let evidence = json!({
+        "property_id": PROPERTY,
+        "tier": tier,
+        "seed": seed,
+        "level": "fault_enumeration",
+        "wall_s": wall,
+        "violations": n_viol,
+        "coverage": {
+            "evaluations": passes,
+            "distinct_nontrivial": distinct.len(),
+            "rule": "evaluations = passes executed (one pass = one call of the real library under one fault configuration, in one build); for every sampled call the control pass reveals its fault map (sink writes, allocation requests, clock readings) and then EVERY fault point is enumerated: each sink write failing, sink capacities 0/1/len-1, each allocation refused once and persistently, sink failure combined with refusal of the allocation made in the error path, each extreme clock reading and a ticking clock. distinct_nontrivial = distinct (function, build, fault kind, fault position, outcome class) tuples among passes in which the injected fault actually fired.",
+            "exhaustive": false,
+            "samples": samples,
+            "calls_per_build": n_calls,
+            "builds": builds,
+            "build_profiles": {"relchk": "optimised, overflow-checks = true, debug-assertions = true", "release": "optimised, both off"},
+            "calls": totals.get("calls").copied().unwrap_or(0),
+            "seamless_calls": totals.get("seamless_calls").copied().unwrap_or(0),
+            "calls_with_sink_writes": totals.get("calls_with_sink").copied().unwrap_or(0),
+            "calls_with_allocations": totals.get("calls_with_alloc").copied().unwrap_or(0),
+            "calls_with_clock_readings": totals.get("calls_with_clock").copied().unwrap_or(0),
+            "runs_per_hour": if wall > 0.0 { (passes as f64 / wall * 3600.0) as u64 } else { 0 },
+            "seeds": format!("VERIF_SEED={} -> per-call xoshiro256** streams for call indices 0..{}", seed, n_calls),
+            "fault_kinds": fk,
+            "outcome_classes": outcomes,
+            "calls_by_function": by_func,
+            "functions_covered": by_func.len(),
+            "probes": probes,
+            "simulated_time_covered": "not meaningful: no timers in the code under test; the clock is a value source (10 extreme readings + a ticking clock per clock-reading call)",
+            "batch_hash": hashes.iter().map(|(b, h)| format!("{}:{:016x}", b, h)).collect::<Vec<_>>().join(" "),
+            "workers": workers,
+            "process_isolation": "each build runs in worker processes; a worker death (abort, stack overflow) is located by a traced re-run and confirmed in a fresh process",
+            "components": {
+                "real": ["all of sqldatetime in two build configurations", "core::fmt machinery between LazyFormat and the sink"],
+                "stub": ["text sink (FaultySink)", "allocator (FailingAlloc wrapping System)", "clock (verif-hooks override)"]
+            },
+        },
+        "assumptions": [
+            "only panic and abort are violations; error variants and results under fault are not compared",
+            "to_string()/format!() are never applied to the lazy Display value (std panics by contract when Display errs)",
+            "Month::from(usize) / WeekDay::from(usize) document their panic and belong to none of the six types; they are outside the workload",
+            "inputs are sampled by the seeded generators; fault points of each sampled call are enumerated"
+        ],
+    });
+    if let Err(e) = simcore::evidence::write_json_atomic(out, &evidence) {
+        eprintln!("harness error: cannot write evidence: {e}");
+        return EXIT_HARNESS;
+    }
+    println!(
+        "C03: calls={} passes={} distinct_nontrivial={} seamless_calls={} wall={:.1}s",
+        totals.get("calls").copied().unwrap_or(0),
+        passes,
+        distinct.len(),
+        totals.get("seamless_calls").copied().unwrap_or(0),
+        wall
+    );
+    for l in lines {
+        println!("{l}");
+    }
+    exit
+}
+
+/// Waits for a traced worker and returns the last "BEGIN idx pass" it announced, if it died.
+fn collect_trace(child: std::process::Child) -> Option<(u64, u64)> {
+    let o = child.wait_with_output().ok()?;
+    if o.status.success() {
+        return None;
+    }
+    let err = String::from_utf8_lossy(&o.stderr);
+    let last = err.lines().rev().find(|l| l.starts_with("BEGIN "))?;
+    let mut it = last.split_whitespace().skip(1);
+    Some((it.next()?.parse().ok()?, it.next()?.parse().ok()?))
+}
+
+/// Re-derives pass number `pno` of call `idx` by re-running only that call with tracing, in fresh processes.
+fn locate_pass(build: &str, seed: u64, n_calls: u64, idx: u64, pno: u64, scratch: &std::path::Path) -> Option<(Pass, String)> {
+    // The pass list depends on the control pass; recompute it here in-process
+    // (the control pass itself did not crash, or pno would be 0).
+    let funcs = calls::funcs();
+    install_clock();
+    let mut rng = Rng::for_run(seed, tag("C03-call"), idx);
+    let call = calls::gen_call(&mut rng, &funcs);
+    let _ = n_calls;
+    let pass = if pno == 0 {
+        Pass::CONTROL
+    } else {
+        // the control pass must run in a process of the same build: ask a worker for it
+        let o = std::process::Command::new(build_exe(build))
+            .arg("--list-passes")
+            .arg("--seed")
+            .arg(seed.to_string())
+            .arg("--only")
+            .arg(idx.to_string())
+            .output()
+            .ok()?;
+        let text = String::from_utf8_lossy(&o.stdout);
+        let arr: Value = serde_json::from_str(text.lines().find_map(|l| l.strip_prefix("PASSES "))?).ok()?;
+        Pass::from_json(arr.as_array()?.get(pno as usize)?)
+    };
+    let result = exec_in_fresh_process(build, &call, &pass, scratch);
+    if class_of(&result) == "ok" || class_of(&result) == "harness" {
+        None
+    } else {
+        Some((pass, result))
+    }
+}
+
+fn list_passes(seed: u64, idx: u64) -> i32 {
+    let funcs = calls::funcs();
+    install_clock();
+    let mut rng = Rng::for_run(seed, tag("C03-call"), idx);
+    let call = calls::gen_call(&mut rng, &funcs);
+    let vals = match &call {
+        Call::Func { args, .. } => args.vals(),
+        _ => None,
+    };
+    let r = run_pass(&call, &funcs, vals.as_ref(), &Pass::CONTROL);
+    let mut passes = vec![Pass::CONTROL];
+    if !r.panicked {
+        passes.extend(enumerate_passes(r.writes, r.bytes, r.allocs, r.clock_reads, &mut rng));
+    }
+    println!("PASSES {}", Value::Array(passes.iter().map(|p| p.to_json()).collect()));
+    EXIT_OK
+}
+
+fn replay(path: &str) -> i32 {
+    let v = match simcore::evidence::read_json(std::path::Path::new(path)) {
+        Ok(v) => v,
+        Err(e) => {
+            eprintln!("harness error: {e}");
+            return EXIT_HARNESS;
+        }
+    };
+    let build = v["build"].as_str().unwrap_or("relchk").to_string();
+    let call = match Call::from_json(&v["call"]) {
+        Ok(c) => c,
+        Err(e) => {
+            eprintln!("harness error: bad call: {e}");
+            return EXIT_HARNESS;
+        }
+    };
+    let pass = Pass::from_json(&v["pass"]);
+    let scratch = simcore::verif_root().join("sim").join("target").join("c03-replay-scratch.json");
+    let r = exec_in_fresh_process(&build, &call, &pass, &scratch);
+    let _ = std::fs::remove_file(&scratch);
+    println!("replay {}: build={} {} under pass {} -> {}", path, build, call.describe(), pass.to_json(), r);
+    match class_of(&r) {
+        "panic" | "crash" => {
+            println!("VIOLATION property={} replay={}", PROPERTY, path);
+            EXIT_VIOLATION
+        }
+        "ok" => {
+            println!("no violation on this tree");
+            EXIT_OK
+        }
+        _ => EXIT_HARNESS,
+    }
+}
+
+fn main() {
+    let args: Vec<String> = std::env::args().collect();
+    std::panic::set_hook(Box::new(|info| {
+        // first thing: stop refusing allocations, the panic machinery needs them
+        let _ = alloc::disarm();
+        let msg = format!("{}", info);
+        let _ = LAST_PANIC.try_with(|p| {
+            if let Ok(mut p) = p.try_borrow_mut() {
+                *p = msg;
+            }
+        });
+    }));
+    let mut tier = std::env::var("VERIF_TIER").unwrap_or_else(|_| "quick".into());
+    let mut is_worker = false;
+    let mut build = String::from("release");
+    let mut seed = simcore::seed_from_env();
+    let mut calls_n: Option<u64> = None;
+    let mut index = 0u64;
+    let mut of = 1u64;
+    let mut trace = false;
+    let mut only: Option<u64> = None;
+    let mut out = simcore::verif_root().join("evidence").join("C03.json");
+    let mut i = 1;
+    while i < args.len() {
+        let take = |i: &mut usize| -> String {
+            *i += 1;
+            args.get(*i).cloned().unwrap_or_default()
+        };
+        match args[i].as_str() {
+            "--tier" => tier = take(&mut i),
+            "--worker" => is_worker = true,
+            "--build" => build = take(&mut i),
+            "--seed" => seed = take(&mut i).parse().unwrap_or(seed),
+            "--calls" => calls_n = take(&mut i).parse().ok(),
+            "--index" => index = take(&mut i).parse().unwrap_or(0),
+            "--of" => of = take(&mut i).parse().unwrap_or(1),
+            "--trace" => trace = true,
+            "--only" => only = take(&mut i).parse().ok(),
+            "--out" => out = take(&mut i).into(),
+            "--exec-one" => {
+                let f = take(&mut i);
+                std::process::exit(exec_one(&f));
+            }
+            "--replay" => {
+                let f = take(&mut i);
+                std::process::exit(replay(&f));
+            }
+            "--list-passes" => {
+                // remaining args parsed below
+                let mut s = seed;
+                let mut o = 0u64;
+                let mut j = i + 1;
+                while j < args.len() {
+                    match args[j].as_str() {
+                        "--seed" => {
+                            j += 1;
+                            s = args[j].parse().unwrap_or(s);
+                        }
+                        "--only" => {
+                            j += 1;
+                            o = args[j].parse().unwrap_or(0);
+                        }
+                        _ => {}
+                    }
+                    j += 1;
+                }
+                std::process::exit(list_passes(s, o));
+            }
+            other => {
+                eprintln!("unknown argument {other}");
+                std::process::exit(EXIT_HARNESS);
+            }
+        }
+        i += 1;
+    }
+    if is_worker {
+        std::process::exit(worker(&build, seed, calls_n.unwrap_or(1000), index, of.max(1), trace, only));
+    }
+    if tier != "quick" && tier != "thorough" {
+        eprintln!("unknown tier {tier}");
+        std::process::exit(EXIT_HARNESS);
+    }
+    std::process::exit(coordinator(&tier, calls_n, &out));
+}
